@@ -1,4 +1,5 @@
 import CJ.Model.Announce
+import CJ.Model.AnnounceStation
 import CJ.Gen.C10Consts
 import CJ.Drv.Detector
 import CJ.Drv.Registry
@@ -116,6 +117,61 @@ def handle (args : List String) : Option String :=
         let (y', _) := step P c acc.1 (.dsweep now)
         (y', ("p:" ++ joinWith "," (keys.toList.map (probeKey y'))) :: acc.2)) (y0, [])
     some (joinWith ";" outs.reverse)
+  | _ => none
+
+/-! ## station scenarios: pipeline, shutdown, availability of the channel
+
+`c10s|<unusedNs>|<activeNs>|<enabled>|<key>;…|<event>;…` with events `i,<key>,<now>,<passes>` / `m,<key>,<now>` /
+`s,<now>` (history events in one piece), `b,<key>,<now>` (a worker takes the message: ingest up to its probe),
+`f,<key>,<now>,<passes>` (the probe returns), `x,<now>,<outcome bits | ->` (`cancel(); wg.Wait()`), `c,<now>`
+(`Cleanup()`), `U` / `D` (the channel comes up / goes down).  Whether `x` waits for parked ingests is the
+go/ast fact of the tree under test.  Answer: `<messages that reached the channel, in order>|<size of the
+detector's table>`; a message is `new:<key>`, `upd:<key>` or `clear`. -/
+
+def parseBits (s : String) : Option (List Bool) :=
+  if s == "-" then some [] else s.toList.mapM (fun ch => if ch == '1' then some true else if ch == '0' then some false else none)
+
+def parseSOp (keys : Array KeyInfo) (s : String) : Option SOp :=
+  match s.splitOn "," with
+  | ["i", ki, now, p] => do
+    let k ← keys[← ki.toNat?]?
+    some (.op (.ingest k.key k.tr (← now.toNat?) (← parseBool p)))
+  | ["m", ki, now] => do
+    let k ← keys[← ki.toNat?]?
+    some (.op (.markActive k.key k.tr (← now.toNat?)))
+  | ["s", now] => do some (.op (.sweep (← now.toNat?)))
+  | ["b", ki, now] => do
+    let k ← keys[← ki.toNat?]?
+    some (.begin k.key k.tr (← now.toNat?))
+  | ["f", ki, now, p] => do
+    let k ← keys[← ki.toNat?]?
+    some (.finish k.key (← now.toNat?) (← parseBool p))
+  | ["x", now, bits] => do some (.stop (← now.toNat?) (← parseBits bits))
+  | ["c", now] => do some (.cleanup (← now.toNat?))
+  | ["U"] => some .chanUp
+  | ["D"] => some .chanDown
+  | _ => none
+
+def showMsg (keys : Array KeyInfo) : Msg → String
+  | .clear => "clear"
+  | .ann k kind =>
+    let i := match keys.findIdx? (·.key == k) with
+      | some i => toString i
+      | none => "?"
+    (if kind = .new then "new:" else "upd:") ++ i
+
+def handleStation (args : List String) : Option String :=
+  match args with
+  | [u, a, en, ks, evs] => do
+    let c : CJ.Registry.Cfg := { unusedT := ← u.toNat?, activeT := ← a.toNat?, enabled := ← parseNatList en }
+    let keys := (← (fields ks ";").mapM parseKey).toArray
+    let Q : SParams := { P := params keys, clear := CJ.Gen.C10.clearMsg,
+                         sync := CJ.Gen.C10.asyncIngestCalls.isEmpty && CJ.Gen.C10.workersCounted && CJ.Gen.C10.mainWaitsForPipeline }
+    let sops ← (fields evs ";").mapM (parseSOp keys)
+    let st0 : Station := { sys := { reg := {}, det := [(CJ.Drv.Detector.sentinel, 1)] } }
+    let st := srun Q c sops st0
+    let log := if st.log.isEmpty then "-" else joinWith "," (st.log.map (showMsg keys))
+    some s!"{log}|{st.sys.det.length}"
   | _ => none
 
 end CJ.Drv.Announce
